@@ -57,7 +57,11 @@ def columns_of(data: Any) -> List[str]:
     return []
 
 
-def column_values(data: Any, name: str) -> List[Any]:
+def column_values(data: Any, name: str, tolerant: bool = False) -> List[Any]:
+    """tolerant: python-dict rows that do not bind `name` count as null (appended rows of the other source); never used for
+    the join families, where a missing column must surface as a failure"""
+    if tolerant and isinstance(data, list):
+        return [r.get(name) for r in data]
     if hasattr(data, "column_names"):
         return data.column(name).to_pylist()
     if hasattr(data, "columns"):
@@ -121,6 +125,8 @@ def native_table(cfw: str, cols: Dict[str, List[Any]]) -> Any:
 
 
 def table_rows(data: Any) -> List[Dict[str, Any]]:
+    if isinstance(data, list):
+        return [dict(r) for r in data]       # python-dict rows as they are (a row need not bind every column; null = absent downstream)
     cols = columns_of(data)
     vals = {c: column_values(data, c) for c in cols}
     return [{c: vals[c][i] for c in cols} for i in range(nrows(data))]
@@ -252,7 +258,9 @@ class Universe:
                 res = set()
                 for i in _f[n]["inputs"]:
                     iopt = _f[n].get("input_opt", {}).get(i)
-                    res.add(Feature(i, options=dict(iopt)) if iopt else Feature(i))
+                    iidx = _f[n].get("input_index", {}).get(i)        # APPEND / UNION links find their sides by the input features' index
+                    kw = {"index": Index(tuple(iidx))} if iidx else {}
+                    res.add(Feature(i, options=dict(iopt), **kw) if iopt else Feature(i, **kw))
                 return res
 
             def calculate_feature(cls: Any, data: Any, features: Any, _f: Any = feats) -> Any:
@@ -269,7 +277,7 @@ class Universe:
                     d = _f[n]
                     vals = [d["c0"]] * n_rows
                     for coef, inp in zip(d["coefs"], d["inputs"]):
-                        col = column_values(data, inp)
+                        col = column_values(data, inp, bool(uni.spec.get("tolerant")))
                         vals = [None if (a is None or b is None) else a + coef * b for a, b in zip(vals, col)]
                     new[n] = vals
                 out = with_columns(data, new, inplace=bool(uni.spec.get("inplace")))
